@@ -20,12 +20,19 @@ RULE = (
     "[-180,180] convention (non-representable arcs are enumerated and counted as outside the quantifier), x 3 latitude bands "
     "(region only) + the whole lattice of longitudes as a 1-D array, as 2-D arrays with a third coordinate, and the sub-arrays of non-negative / <= 180 / seam-only longitudes (arrays that already look like one convention); every returned "
     "bound and longitude is checked with exact arithmetic mod 360 and every lattice longitude's membership with verde.inside. "
+    "Off-lattice: W = k/10 and k/7 degrees (every 7th k in quick, rotated by VERIF_SEED; all in thorough) x 8 non-dyadic widths, with the "
+    "region's own corners (bitwise), the midpoint, both one-ulp neighbours outside, points 1 degree outside and all their 360-degree "
+    "aliases as longitudes: congruence and width up to 16 ulp of 360, membership decided by exact rational arithmetic with a 1e-9 guard band "
+    "around the bounds except for the bitwise corners, which must be inside. "
     "Non-trivial: representable arc of non-zero width, or an invalid input that must be refused."
 )
 ASSUMPTIONS = ["widths within 0.01 degree of (but not equal to) 360 are excluded as the quantifier says; the lattices contain none",
                "for W > E with |E - W| = 360 (width 0 or 360 depending on the reading) either reading is accepted"]
 
 LATS = [[-90.0, 90.0], [-10.0, 10.0], [0.0, 0.0]]
+CORNER_WIDTHS = [1e-7, 1e-4, 0.003, 0.1, 1.3, 10.7, 77.7, 123.4, 200.1, 300.3, 359.5]   # narrow arcs: seed C17-8 (relative "full globe" test)
+GUARD = F(1, 10 ** 9)      # longitudes closer than this to a bound (and not bitwise equal to it) are not classified
+ULP360 = F(1, 2 ** 44)     # 16 ulp of 360: bound on the round-off of the three operations applied to a bound or a longitude
 
 
 def lattice(tier):
@@ -76,6 +83,13 @@ def cases(tier, seed):
                     if lname == "5deg":
                         yield dict(kind="pair", lat=lname, W=W, E=E, latband=1, form="1d", dtype="i8")
                     yield dict(kind="pair", lat=lname, W=W, E=E, latband=1, form="1d", dtype="f4")
+    # off-lattice, non-dyadic bounds (tenths and sevenths of a degree): every floating-point operation of the function rounds.
+    # The region's own corners, given as coordinates, must lie inside the returned region (finding D8).
+    stride = 7 if tier == "quick" else 1
+    for den, lo, hi in ((10, -1800, 3600), (7, -1260, 2520)):
+        for k in range(lo + (seed % stride), hi + 1, stride):
+            for width in CORNER_WIDTHS:
+                yield dict(kind="corner", num=k, den=den, width=width)
     for bad in ("w_lt_-180", "e_gt_360", "w_gt_360", "e_lt_-180", "span_gt_360", "s_lt_-90", "n_gt_90",
                 "lon_gt_360", "lon_lt_-180", "lat_gt_90", "lat_lt_-90", "w_gt_360_e_small", "e_lt_-180_w_big", "w_lt_-180_e_big",
                 "e_gt_360_w_small", "s_gt_90_n_below", "n_lt_-90_s_above"):
@@ -83,6 +97,11 @@ def cases(tier, seed):
             yield dict(kind="invalid", bad=bad, delta=delta)
     # out-of-range coordinates are rejected whatever the region looks like: ordinary, crossing 0, crossing 180, full globe in
     # several spellings, zero width (seed C17-r2_2: a full-globe fast path that skipped the coordinate checks)
+    # an out-of-range value is rejected even when the same array also holds NaNs (seed C17-7: max / min instead of any)
+    for bad in ("lon_gt_360", "lon_lt_-180", "lat_gt_90", "lat_lt_-90"):
+        for nanpos in ("lon_first", "lon_last", "lat_first", "lat_last", "both"):
+            for delta in (5.0, 1e-3):
+                yield dict(kind="invalid", bad=bad, delta=delta, nan=nanpos)
     for bad in ("lon_gt_360", "lon_lt_-180", "lat_gt_90", "lat_lt_-90"):
         for reg in ([350.0, 10.0], [170.0, -170.0], [0.0, 360.0], [-180.0, 180.0], [-72.5, 287.5], [40.0, 40.0], [-20.0, 20.0], [180.0, 360.0]):
             for delta in (5.0, 1e-3):
@@ -91,6 +110,64 @@ def cases(tier, seed):
 
 def _lons(lat_name, tier_vals):
     return tier_vals
+
+
+def _corner(case, rec, vd):
+    W = case["num"] / case["den"]
+    E = W + case["width"]
+    if E > 360 or E % 180 == 0 or W % 180 == 0:
+        rec.trivial = True
+        rec.cls("corner:out-of-domain")
+        return rec.skip("E beyond 360 or a bound on a seam (the lattice cases cover the seams)")
+    a = arc(W, E)
+    if a is None:
+        rec.trivial = True
+        rec.cls("non-representable")
+        return rec.skip("non-representable arc (outside the quantifier)")
+    width = F(E) - F(W)
+    mid = W + case["width"] / 2
+    out_e = E + min(1.0, (360 - case["width"]) / 2)
+    out_w = W - min(1.0, (360 - case["width"]) / 2)
+    cand = [W, E, mid, out_e, out_w, W + 360, E + 360, W - 360, E - 360, mid + 360, mid - 360, np.nextafter(W, -1e9), np.nextafter(E, 1e9)]
+    lon = np.array([v for v in cand if -180 <= v <= 360])
+    la = np.zeros(lon.size)
+    region = [W, E, -10.0, 10.0]
+    got = call(rec, vd.longitude_continuity, (lon, la), region)
+    if raised(got):
+        return rec.check(False, "longitude_continuity raised %r for the representable arc %r" % (got, region))
+    coords_out, reg_out = got
+    reg_out = [float(v) for v in np.asarray(reg_out).tolist()]
+    lon_out = np.asarray(coords_out[0], dtype=float)
+    Wp, Ep = F(reg_out[0]), F(reg_out[1])
+    rec.cls("corner:%s" % ("360" if Wp >= 0 else "180"))
+    if not rec.check(Wp <= Ep, "returned region has W > E: %r -> %r" % (region, reg_out)):
+        return
+    near = lambda x: min(x % 360, (-x) % 360)
+    rec.check(near(Wp - F(W)) <= ULP360 and near(Ep - F(E)) <= ULP360, "returned bounds %r not congruent to %r modulo 360 (beyond round-off)" % (reg_out[:2], region[:2]))
+    rec.check(abs((Ep - Wp) - width) <= 2 * ULP360, "width %r of the returned region differs from the eastward angle %r" % (float(Ep - Wp), float(width)))
+    rec.check(reg_out[2:] == [-10.0, 10.0], "latitudes changed")
+    rec.check(all(near(F(float(o)) - F(float(i))) <= ULP360 for i, o in zip(lon.tolist(), lon_out.tolist())), "longitudes not congruent to the inputs modulo 360")
+    ins = call(rec, vd.inside, (lon_out, np.asarray(coords_out[1], dtype=float)), reg_out)
+    if raised(ins):
+        return rec.check(False, "inside raised %r on the returned region %r" % (ins, reg_out))
+    wrong = []
+    ntest = 0
+    for L, o, got_in in zip(lon.tolist(), lon_out.tolist(), np.asarray(ins).tolist()):
+        off = (F(L) - F(W)) % 360
+        if L == W or L == E:
+            want = True            # the region's own corner, bit for bit
+        elif GUARD <= off <= width - GUARD:
+            want = True
+        elif width + GUARD <= off <= 360 - GUARD:
+            want = False
+        else:
+            continue               # within round-off of a bound: not decided by the property
+        ntest += 1
+        if bool(got_in) != want:
+            wrong.append((L, o, bool(got_in), want))
+    rec.count("membership_tests", ntest)
+    rec.check(not wrong, "membership (input longitude, returned longitude, inside, expected) %r differs from the angular arc: region %r -> %r"
+              % (wrong[:4], region, reg_out))
 
 
 def run(case, rec):
@@ -123,10 +200,23 @@ def run(case, rec):
             la = np.array([0.0, 90.0 + d_, 2.0])
         if bad == "lat_lt_-90":
             la = np.array([-90.0 - d_, 1.0, 2.0])
+        if case.get("nan"):
+            lon = np.concatenate([[1.0], lon, [2.0]]); la = np.concatenate([[0.5], la, [0.25]])
+            np_ = case["nan"]
+            if np_ in ("lon_first", "both"):
+                lon[0] = np.nan
+            if np_ == "lon_last":
+                lon[-1] = np.nan
+            if np_ in ("lat_first",):
+                la[0] = np.nan
+            if np_ in ("lat_last", "both"):
+                la[-1] = np.nan
         got = call(rec, vd.longitude_continuity, (lon, la), reg)
-        rec.check(raised(got) and isinstance(got.exc, ValueError), "invalid input %s must raise ValueError, got %r" % (bad, got))
+        rec.check(raised(got) and isinstance(got.exc, ValueError), "invalid input %s (NaN: %s) must raise ValueError, got %r" % (bad, case.get("nan"), got))
         rec.cls("refusal:" + bad)
         return
+    if case["kind"] == "corner":
+        return _corner(case, rec, vd)
     W, E = case["W"], case["E"]
     a = arc(W, E)
     if a is None:
